@@ -5,7 +5,7 @@ use syntax::parser::TextSize;
 use tgv_core::{guard, guard_on_stack, json, Ctx, Engine, Failure, Tier, Value};
 
 use crate::c03::STACK;
-use crate::pm::{emit, Emitted, Program};
+use crate::pm::{emit_with, Emitted, Program};
 use crate::pmgen::{for_each_path, scope_program, WRAPPERS};
 use crate::ws::Ws;
 
@@ -112,10 +112,10 @@ pub fn check(em: &Emitted, well_scoped: bool) -> (Vec<(String, String)>, u64) {
     (out, judged)
 }
 
-pub fn eval_program(p: &Program, well_scoped: bool) -> (Vec<Failure>, u64) {
-    let em = emit(p);
+pub fn eval_program(p: &Program, well_scoped: bool, trivia: bool) -> (Vec<Failure>, u64) {
+    let em = emit_with(p, trivia);
     let witness: String = em.files.iter().map(|f| format!("// {}\n{}", f.name, f.text)).collect::<Vec<_>>().join("\n");
-    let case = json!({ "program": p, "well_scoped": well_scoped, "witness": witness });
+    let case = json!({ "program": p, "well_scoped": well_scoped, "trivia": trivia, "witness": witness });
     match guard(|| check(&em, well_scoped)) {
         Ok((problems, n)) => (problems.into_iter().map(|(c, d)| Failure::new(&c, witness.clone(), d, case.clone())).collect(), n),
         Err(pn) => (vec![Failure::new("crash", witness, format!("{} at {}", pn.message, pn.location), case)], 0),
@@ -197,7 +197,7 @@ impl Engine for C05 {
     fn rule(&self, tier: Tier) -> String {
         format!(
             "programs = prelude (a class with a template argument and two fields, a multiclass, a def) + every admissible nesting path of length <= {} over 8 scope-opening constructs \
-             (foreach with and without braces, group let, if-then, if-else, defset, multiclass with and without template arguments) x {} use positions (plain, list, bang argument, dag argument, !cond, paste, class-value argument, bits, !if, !foreach/!foldl/!filter bodies) x 4 layouts (one file; prelude included; each also with a forward declaration of the class before its definition); \
+             (foreach with and without braces, group let, if-then, if-else, defset, multiclass with and without template arguments) x {} use positions (plain, list, bang argument, dag argument, !cond, paste, class-value argument, bits, !if, !foreach/!foldl/!filter bodies) x 4 layouts (one file; prelude included; each also with a forward declaration of the class before its definition), half of the (use position, layout) pairs printed with a comment after every identifier; \
              at every level a probe use of each of {} pool names is placed before, inside and after the construct, in statements (defvar, assert, dump, anonymous def parent argument) and in leaf records (template default, parent argument, field initialiser, body let, body defvar, defm argument). \
              Every identifier occurrence the emitter records is judged at every offset. non-trivial = every program (each has in-scope, shadowed and out-of-scope uses); distinct by construction.",
             tier.pick(3, 4),
@@ -226,10 +226,12 @@ impl Engine for C05 {
                             continue;
                         }
                         let full = scope_program(path, wrapper, layout);
+                        // half of the programs are printed with a comment after every identifier
+                        let trivia = (wrapper + layout) % 2 == 1;
                         let valid = crate::pmgen::well_scoped(&full);
                         for (p, ws) in [(&valid, true), (&full, false)] {
-                            ctx.trace(|| json!({ "program": p, "well_scoped": ws, "witness": format!("{path:?} wrapper {wrapper} layout {layout}") }));
-                            let (fails, judged) = eval_program(p, ws);
+                            ctx.trace(|| json!({ "program": p, "well_scoped": ws, "trivia": trivia, "witness": format!("{path:?} wrapper {wrapper} layout {layout}") }));
+                            let (fails, judged) = eval_program(p, ws, trivia);
                             ctx.case(true);
                             ctx.add(if ws { "occurrences_judged_well_scoped" } else { "out_of_scope_uses_judged" }, judged);
                             for f in fails {
@@ -253,19 +255,21 @@ impl Engine for C05 {
     fn eval_case(&self, case: &Value) -> Vec<Failure> {
         let Some(p) = program_of(case) else { return vec![] };
         let ws = case["well_scoped"].as_bool().unwrap_or(true);
-        guard_on_stack(STACK, || eval_program(&p, ws).0).unwrap_or_default()
+        let trivia = case["trivia"].as_bool().unwrap_or(false);
+        guard_on_stack(STACK, || eval_program(&p, ws, trivia).0).unwrap_or_default()
     }
 
     fn shrink(&self, case: &Value, _clause: &str) -> Vec<Value> {
         let Some(p) = program_of(case) else { return vec![] };
         let ws = case["well_scoped"].as_bool().unwrap_or(true);
+        let trivia = case["trivia"].as_bool().unwrap_or(false);
         // a shrunk well-scoped program must stay well scoped: re-apply the probe filter
         shrink_program(&p)
             .into_iter()
             // deleting a declaration the rest depends on makes a different program: only pool names may be unresolved
-            .filter(|q| emit(q).occs.iter().all(|o| o.target.is_some() || !o.judged || crate::pmgen::POOL.contains(&o.name.as_str())))
+            .filter(|q| emit_with(q, false).occs.iter().all(|o| o.target.is_some() || !o.judged || crate::pmgen::POOL.contains(&o.name.as_str())))
             .map(|q| if ws { crate::pmgen::well_scoped(&q) } else { q })
-            .map(|q| json!({ "program": q, "well_scoped": ws }))
+            .map(|q| json!({ "program": q, "well_scoped": ws, "trivia": trivia }))
             .collect()
     }
 }
